@@ -7,7 +7,7 @@ from harness import core
 from harness.props import _emission_common as EC
 
 MANIFEST_ENTRY = {
-    "text": "Lean theorems prove, for every emission, tag/record schedule and horizon: active days <= active days of the no-LDAR run, unconditionally for all four emission classes (C03_le_baseline_all(_E)); emitted days <= emitted days of the no-LDAR run, also for intermittent repairable leaks (C03_emit_le_baseline(_E), from the prefix relation run_pre: while the program run is alive it agrees with the baseline on the whole on/off automaton); active days + pre-period days <= max(duration, pre-period days + 1) with the clean bound <= duration whenever the emission is younger than its duration at period start (C03_bounded, C03_bounded_partial), and for non-repairable emissions the whole observable life-cycle (status, active days, emitted days, end date) is independent of the schedule, never repaired, mitigation 0 (C03_nonrepairable, by a simulation relation over the day loop). C03_counterexample proves the clean duration bound false for an emission generated exactly `duration` days before the period (known finding F3). Model tied to the real emission classes / Component / Source by differential correspondence every run and by trace conformance of whole simulations (every second one with an intermittent non-repairable source and two repairable sources on one component); oracle evaluates the clauses on implementation outputs (program vs baseline), non-repairable emissions day by day on the per-day trace; domain / hypothesis hit counters in the evidence. Hardening stages on every run (shared with C02/C04): same-process history, shared inputs, deep copies / pickle round trips of real Components (no emission object shared between the world copies of two programs; the no-LDAR run must not depend on a program that ran before it in the same process), pinned copy-hook table, calendar stage, marker-like method names, whole runs over boundary periods, two simulations, pool mode, baseline listed last; exceptions of the code under test become broken obligations.",
+    "text": "Lean theorems prove, for every emission, tag/record schedule and horizon: active days <= active days of the no-LDAR run, unconditionally for all four emission classes (C03_le_baseline_all(_E)); emitted days <= emitted days of the no-LDAR run, also for intermittent repairable leaks (C03_emit_le_baseline(_E), from the prefix relation run_pre: while the program run is alive it agrees with the baseline on the whole on/off automaton); active days + pre-period days <= max(duration, pre-period days + 1) with the clean bound <= duration whenever the emission is younger than its duration at period start (C03_bounded, C03_bounded_partial), and for non-repairable emissions the whole observable life-cycle (status, active days, emitted days, end date) is independent of the schedule, never repaired, mitigation 0 (C03_nonrepairable, by a simulation relation over the day loop). C03_counterexample proves the clean duration bound false for an emission generated exactly `duration` days before the period (known finding F3). Model tied to the real emission classes / Component / Source by differential correspondence every run and by trace conformance of whole simulations (every second one with an intermittent non-repairable source and two repairable sources on one component); oracle evaluates the clauses on implementation outputs (program vs baseline), non-repairable emissions day by day on the per-day trace; domain / hypothesis hit counters in the evidence. Hardening stages on every run (shared with C02/C04): same-process history, shared inputs, deep copies / pickle round trips of real Components (no emission object shared between the world copies of two programs; the no-LDAR run must not depend on a program that ran before it in the same process), pinned copy-hook table, calendar stage, marker-like method names, whole runs over boundary periods, two simulations, pool mode, baseline listed last; exceptions of the code under test become broken obligations. Layer 3 (every run): the methods of the four emission classes are translated from the current source to Lean (harness/extract/py2lean.py, emission_src.py -> Generated/EmissionSrc.lean) and Props/EmissionTie.lean + EmissionOnSource.lean are re-checked: each translated method equals the model's function through the abstraction, iterating them is Emission.run (run_tie), and the C02/C03/C04 statements hold of the translated code; a method outside the translated subset is a note, a failing tie theorem a broken obligation.",
     "design_ref": "DESIGN.md 5.3, 4.1",
     "note": "trusted: Lean kernel + standard axioms; hand-written model tied by sampled/structured-exhaustive correspondence; harness adapters; durations of whole-run records taken from the generated configuration",
     "technique": "Lean 4 invariant + simulation-relation proofs over the emission state machine + differential correspondence + direct oracle",
@@ -118,7 +118,7 @@ def run(ctx):
         ctx, results, lambda ctx, case, res, base, origin: check(
             ctx, "hardening", case[3], case[0], case[1], res, base,
             {"case": list(case), "origin": origin, "program": res, "baseline": base}))
-    EC.wholerun_stage(ctx, 4, 12, wholerun_record)
+    EC.wholerun_stage(ctx, 5, 21, wholerun_record)
     EC.finish_hit_rates(ctx)
     for k in ("wholerun:F3-occurrences", "wholerun:start==-duration(F3-domain)",
               "wholerun_oracle:non-repairable-intermittent", "wholerun_records_reached_by_events:non-repairable"):
